@@ -1,4 +1,4 @@
-//go:build verif
+//go:build verif && (c01 || allprops)
 
 package main
 
@@ -149,5 +149,3 @@ func init() {
 		}
 	}
 }
-
-func (l sxList) String() string { return sxString(l) }
